@@ -48,7 +48,12 @@ def configs(tier, seed):
         big += [tuple(rnd.randint(0, 21) for _ in range(3)) for _ in range(6)]
         for i, (nx, ny, nz) in enumerate(big):
             out.append(dict(harness="morton", nx=nx, ny=ny, nz=nz, G=21, cs=(1, 3, 64)[i % 3], cost=1, wall=600))
+        # a dataset with another grid used earlier in the same process
+        out.append(dict(harness="morton", nx=2, ny=0, nz=0, G=5, cs=1, prior=[100, 100, 100], cost=2, wall=600))
+        out.append(dict(harness="morton", nx=1, ny=3, nz=2, G=5, cs=3, prior=[7, 2, 9], cost=2, wall=600))
     else:
+        out.append(dict(harness="morton", nx=2, ny=0, nz=0, G=5, cs=1, prior=[100, 100, 100], cost=2, wall=600))
+        out.append(dict(harness="morton", nx=1, ny=3, nz=2, G=5, cs=3, prior=[7, 2, 9], cost=2, wall=600))
         for nx in range(0, 22):
             for cs in ((1,) if nx % 4 else (1, 3, 64)):
                 out.append(dict(harness="morton", nx=nx, G=21, cs=cs, cost=3, wall=3000, max_paths=100000))
@@ -111,6 +116,14 @@ def H_morton(ctx, cfg):
     coords = (mins[0], mins[0] + cs, mins[1], mins[1] + cs, mins[2], mins[2] + cs)
     valid = z3.And([z3.And(mins[d].e >= 0, z3.SRem(mins[d].e, z3.BitVecVal(cs, W)) == 0,
                            mins[d].e < g[d].e * cs) for d in range(3)])
+    if cfg.get("prior"):
+        # another dataset with another grid was used earlier in the same process (one accessor per scale / per dataset):
+        # nothing of it may carry over
+        other = sb.ShardVolumeSpec([cs, cs, cs], [cs * k for k in cfg["prior"]])
+        try:
+            other.get_cmc(coords)
+        except sb.ShardedIOError:
+            pass
     try:
         code = spec.get_cmc(coords)
     except sb.ShardedIOError:
@@ -218,6 +231,11 @@ def replay(cfg, cex):
         assert spec.grid_sizes == g
         valid = all(m >= 0 and m % cs == 0 and m // cs < gg for m, gg in zip(mins, g))
         coords = (mins[0], mins[0] + cs, mins[1], mins[1] + cs, mins[2], mins[2] + cs)
+        if cfg.get("prior"):
+            try:
+                sb.ShardVolumeSpec([cs] * 3, [cs * k for k in cfg["prior"]]).get_cmc(coords)
+            except sb.ShardedIOError:
+                pass
         try:
             code = builtins.int(spec.get_cmc(coords))
         except sb.ShardedIOError as e:
